@@ -1193,7 +1193,13 @@ Situations(pre, e, post) ==
     IF e.name \in LiqNames /\ Has(e.args, "pos") /\ APos(e) \in DOMAIN pre.pos /\ APos(e) \in DOMAIN post.pos THEN LiqSituations(pre, e, post) ELSE {},
     RewardSituations(pre, e, post),
     OtherSituations(pre, e, post) }
-FailSituations(pre, e) == {"fail." \o e.name, "err." \o ToString(e.err)} \cup Sit("fail.probe", e.probe) \cup Sit("fail.panic", e.panic)
+TradePending(pre, e, q) == q \in DOMAIN pre.oracle /\ e.now \prec pre.oracle[q].tradeEnableTs
+FailSituations(pre, e) ==
+  {"fail." \o e.name, "err." \o ToString(e.err)} \cup Sit("fail.probe", e.probe) \cup Sit("fail.panic", e.panic)
+  \cup Sit("refused.swap_before_trade_enabled", IsSwapName(e.name) /\ Has(e.args, "pool") /\ TradePending(pre, e, APool(e)))
+  \cup Sit("refused.twohop_first_leg_before_trade_enabled", e.name \in {"two_hop_swap", "two_hop_swap_v2"} /\ TradePending(pre, e, e.slots.whirlpool_one.id))
+  \cup Sit("refused.twohop_second_leg_before_trade_enabled", e.name \in {"two_hop_swap", "two_hop_swap_v2"} /\ TradePending(pre, e, e.slots.whirlpool_two.id))
+  \cup Sit("refused.twohop_v1_second_leg_before_trade_enabled", e.name = "two_hop_swap" /\ TradePending(pre, e, e.slots.whirlpool_two.id))
 
 Tally(S) ==
   LET f == TLCGet(9) IN
@@ -1338,6 +1344,10 @@ Next ==
             /\ Chk("C19", "params_in_bounds_reset", C19State(st'))
             /\ Chk("C05", "liq_sums_reset", C05State(st'))
             /\ Chk("C01", "solvent_reset", Solvent(st'))
+       [] e.k = "setup_failed" ->
+            \* a valid instruction of the driver's own preparation of the world was refused by the program
+            /\ Chk("ANY", "setup_instruction_must_succeed", FALSE)
+            /\ UNCHANGED <<st, gh>>
        [] e.k = "clock" ->
             /\ st' = [st EXCEPT !.now = e.now]
             /\ gh' = gh
